@@ -18,7 +18,7 @@ CHECKS = {
  "C02": ("exploration", "Valid streams from a deflate-grammar generator (expected bytes known from the token list, no decoder involved), from zlib and from ISA-L are decoded in every wrapper mode, stateless and streaming under hostile schedules, under each decode-kernel CPU level; result, finish state, end position and checksum field must equal the independent reference.",
          "generator emits only valid streams (cross-checked by the reference decoder: a disagreement is a harness failure)",
          "runtime differential oracle (grammar generator + independent inflate) over stream shapes, wrapper modes, schedules and decode kernels"),
- "C06": ("fault_enumeration", "Hostile inputs: 14 classes of grammar-level faults injected by the generator, bit flips / substitutions / truncations / trailer edits of valid streams, random bytes; decoded stateless with output sizes {0,1,7,8,exact-1,exact,exact+1,big} and streaming with random chunking in guard-page mappings on the assembly and the all-C ASan+bounds builds; completion is accepted only if the lenient independent decoder agrees; documented codes, progress and error classes monitored.",
+ "C06": ("fault_enumeration", "Hostile inputs: 16 classes of grammar-level faults injected by the generator, bit flips / substitutions / truncations / trailer edits of valid streams, random bytes; decoded stateless with output sizes {0,1,7,8,exact-1,exact,exact+1,big} and streaming with random chunking in guard-page mappings on the assembly and the all-C ASan+bounds builds; completion is accepted only if the lenient independent decoder agrees; documented codes, progress and error classes monitored.",
          "reference decoder is lenient exactly where RFC 1951 is; error class asserted only for isolated injected faults with ample output space",
          "fault injection at grammar and byte level + runtime monitors (guard pages, ASan/bounds, progress, return-code set) + independent decodability oracle"),
  "C07": ("exploration", "Call-history exploration: compression and decompression driven by adversarial schedules (chunk-size tables around internal thresholds, refill/drain disciplines, flush changes, late end_of_stream, zero-length calls, fresh guard-page mapping per chunk released on consumption, every single split point for small streams); per-call event log checked for conservation and bounded progress, results compared with reference/one-shot decode.",
